@@ -560,6 +560,8 @@ def c10(tier, seed):
         c.counters["wall-seconds:" + kind] = round(c.counters.get("wall-seconds:" + kind, 0) + res["wall"], 1)
         c.counters["go-commands"] = c.counters.get("go-commands", 0) + len(res["gos"])
         ncmd += len(res["cmds"])
+        if "ten-of-a-kind" in res["tag"]:
+            c.counters["sessions:ten-of-a-kind"] = c.counters.get("sessions:ten-of-a-kind", 0) + 1
         if res["tag"].startswith("longgame:"):
             n = int(res["tag"].split(":")[1])
             c.counters["longgame-plies>=800"] = c.counters.get("longgame-plies>=800", 0) + (1 if n >= 800 else 0)
@@ -607,6 +609,7 @@ def c10(tier, seed):
               "memory-kind UBSan report, no VERIF-BOUND, no memcheck error, exit 0; evaluations = commands sent; non-trivial = distinct sessions")
     c.assumptions = ["sessions are well-formed per DESIGN.md Appendix A.4 (quit only after bestmove, go only with a legal move)",
                      "UBSan kinds outside the statement (shift, signed overflow, float cast) are recorded, not judged"]
+    c.require("sessions:ten-of-a-kind", 1)
     c.require("sessions:longgame", 18)
     c.require("longgame-plies>=800", 8)
     c.require("sessions:deepdepth", 28)
